@@ -127,8 +127,13 @@ pub fn c17(ctx: &mut Ctx) {
     let (pool, tail_start) = build_pool(ctx, nr, nd);
     // ---- isolated results: first call of each pair in this process -----------------------
     // (a sample of them is additionally computed in a fresh process by the orchestrator)
-    let warm = observe::observe(&json!({"log": "warm-up"}), &Value::Null);
-    let _ = warm;
+    // Warm-up: every operator once on a tiny valid call, once with a wrong operand count, once
+    // with operands of the wrong kind. An implementation may build an *immutable* table the first
+    // time something is used (an operator map behind a OnceLock, a lazily compiled pattern); that
+    // is one-time initialisation, not state carried from one call to the next, and it must not be
+    // reported by the heap monitors below. What they report is heap that appears or varies with
+    // the *inputs* of earlier calls (caches, memos, scratch buffers sized by an operand).
+    warm_up();
     let mut iso: Vec<Isolated> = Vec::with_capacity(pool.len());
     for (r, d) in pool.iter() {
         // the measured call comes first: it is the pair's first evaluation in this process
@@ -373,6 +378,37 @@ pub fn c17(ctx: &mut Ctx) {
     let _: Option<Obs> = None;
 }
 
+/// One small call per operator and failure kind (see the comment at the call site).
+pub fn warm_up() {
+    let d = json!({"a": 1, "b": [1, 2], "s": "xy"});
+    let _ = observe::call(&json!({"log": "warm-up"}), &Value::Null);
+    for op in all_ops() {
+        let valid: Value = match op {
+            "var" => json!({"var": "b.0"}),
+            "missing" => json!({"missing": ["a", "z"]}),
+            "missing_some" => json!({"missing_some": [1, ["a", "z"]]}),
+            "if" | "?:" => json!({op: [{"var": "a"}, 1, 2]}),
+            "and" | "or" => json!({op: [{"var": "a"}, 0]}),
+            "map" | "filter" | "all" | "some" | "none" => json!({op: [{"var": "b"}, {"var": ""}]}),
+            "reduce" => json!({"reduce": [{"var": "b"}, {"+": [{"var": "current"}, {"var": "accumulator"}]}, 0]}),
+            "substr" => json!({"substr": [{"var": "s"}, 1, 1]}),
+            "in" => json!({"in": [{"var": "a"}, {"var": "b"}]}),
+            "!" | "!!" | "log" => json!({op: [{"var": "a"}]}),
+            "merge" | "cat" | "+" | "*" | "max" | "min" => json!({op: [{"var": "a"}, "2", [3]]}),
+            _ => json!({op: [{"var": "a"}, "2"]}),
+        };
+        let _ = observe::call(&valid, &d);
+        let _ = observe::call(&json!({op: [1, 2, 3, 4, 5]}), &d);
+        let _ = observe::call(&json!({ op: [] }), &d);
+        let _ = observe::call(&json!({op: [{"a": 1}, {"var": [[]]}]}), &d);
+        let _ = observe::call(&json!({op: ["x", {"/": [1]}]}), &d);
+    }
+    // values of every kind through the coercions (string forms, numbers from strings)
+    let _ = observe::call(&json!({"cat": [1.5, null, true, [1, [2]], {"a": 1}, "é"]}), &d);
+    let _ = observe::call(&json!({"==": [" 0x10 ", 16]}), &d);
+    let _ = observe::call(&json!({"<": ["a", "b"]}), &d);
+}
+
 /// H1'': a caller that builds its rule and data afresh for every call (parsed from text into the
 /// same local variables, or into boxes the allocator hands out again) presents *different*
 /// documents at the *same* addresses. Anything remembered per address - of the rule, of a node
@@ -527,6 +563,8 @@ fn many_threads(ctx: &mut Ctx, shared: &Arc<Vec<(Value, Value)>>, iso_keys: &Arc
         let (sh, ik) = (shared.clone(), iso_keys.clone());
         let h = std::thread::Builder::new().stack_size(2 << 20).spawn(move || {
             observe::install_panic_hook();
+            // one-time initialisation per thread (an immutable thread-local table) is not state between calls
+            warm_up();
             let (_, l0) = alloc::snapshot();
             let mut bad: Vec<(usize, String)> = Vec::new();
             for idx in [i, j, i] {
